@@ -551,6 +551,56 @@ fn confused_programs(report: &Report, thorough: bool) {
     report.family(FamilyStat { name, cases: total * confused.len() as u64, nontrivial: nontriv.load(Ordering::Relaxed), skipped: 0, note: "programs of the C08 generator (include/render/for/if/capture/assign/cycle/increment)".into() });
 }
 
+/// Date-times at both ends of the representable range through every date-taking filter with every whole-hour
+/// offset: shifting the offset moves the local date-time past the end of the range.
+fn dates_at_the_ends(report: &Report) {
+    let parser = cfgs::parser(Config::Full);
+    let stamps = [
+        "9999-12-31 23:59:59 +0000", "9999-12-31 23:59:59 -1200", "9999-12-31 00:00:00 +1400", "9999-12-30 12:00:00 +0000",
+        "0001-01-01 00:00:00 +0000", "0001-01-01 00:00:00 +1400", "0001-01-01 23:59:59 -1200", "0001-01-02 12:00:00 +0000",
+        "0000-01-01 00:00:00 +0000", "-9999-01-01 00:00:00 +0000", "2020-02-29 23:59:59 +0530",
+    ];
+    let zones: Vec<i64> = (-26..=26).chain([100, -100, 2147483647, -2147483648, i64::MAX, i64::MIN]).collect();
+    let formats = ["%Y-%m-%d %H:%M:%S %z", "%s", "%c", "%G-%V-%u %j %U"];
+    let rad = [stamps.len() as u64, 2, zones.len() as u64, formats.len() as u64, 3];
+    let total = product(&rad);
+    let nontriv = AtomicU64::new(0);
+    let parse_errs = AtomicU64::new(0);
+    let build = |i: u64| -> (String, V) {
+        let d = decode(i, &rad);
+        let ts = stamps[d[0] as usize];
+        let v = if d[1] == 0 { V::Str(ts.to_string()) } else { V::DateTime(ts.to_string()) };
+        let data = V::obj(&[("ts", v), ("tz", V::Int(zones[d[2] as usize])), ("f", V::s(formats[d[3] as usize]))]);
+        let text = match d[4] {
+            0 => "{{ ts | date_in_tz: f, tz }}",
+            1 => "{{ ts | date: f }}|{{ ts }}",
+            _ => "{{ ts | date_in_tz: f, tz | date: f }}|{% assign d = ts | date_in_tz: '%Y-%m-%d %H:%M:%S %z', tz %}{{ d | date: f }}",
+        };
+        (text.to_string(), data)
+    };
+    let name = "dates at the ends of the range x offsets".to_string();
+    par_range(
+        report,
+        &name,
+        total,
+        |i| {
+            let (text, data) = build(i);
+            // a date-time the value model itself refuses to build is not a case
+            if guard(|| data.to_object()).is_err() {
+                report.skip();
+                return;
+            }
+            total_render(report, "filter=date_in_tz|range-ends", i, &parser, &text, &data, &data.to_object(), &nontriv, &parse_errs);
+        },
+        |i| {
+            let (t, d) = build(i);
+            json!({"kind":"render","template":t,"data":d.to_json(),"partials":[]})
+        },
+    );
+    report.nontrivial.fetch_add(nontriv.load(Ordering::Relaxed), Ordering::Relaxed);
+    report.family(FamilyStat { name, cases: total, nontrivial: nontriv.load(Ordering::Relaxed), skipped: parse_errs.load(Ordering::Relaxed), note: format!("{} timestamps (first / last representable days, year 0 and negative years, one ordinary) as text and as date-time values x {} offsets (every whole hour in -26..26 and extremes) x {} formats x date / date_in_tz / chained", stamps.len(), zones.len(), formats.len()) });
+}
+
 /// Arrays longer than 20 elements (where the standard sort starts checking that its comparator is a total
 /// order, and where quadratic helpers become visible) through every filter: all periodic arrays pattern^k,
 /// |pattern| <= 3, over a pool whose members are ordered differently as numbers, as text and by kind.
@@ -684,5 +734,6 @@ pub fn run(tier: Tier) -> i32 {
     awkward_strings(&report);
     long_arrays(&report, full);
     long_distinct_arrays(&report, full);
+    dates_at_the_ends(&report);
     report.finish()
 }
